@@ -15,7 +15,10 @@ type OptDecl struct {
 }
 
 type Decl struct {
-	Name string // "std", "alt", "num": how a replayable case names it
+	Name string // "std", "alt", "num", "sub": how a replayable case names it
+	// Nested: the harness declares the program on a sub-command named `sub` and prefixes every command line with that
+	// name (the reference ignores this: a sub-command's own tokens are judged like a root command's)
+	Nested bool
 	Opts []OptDecl
 	Args []string
 }
@@ -113,6 +116,11 @@ func DeclByName(n string) *Decl {
 	}
 	if n == "num" {
 		return Num()
+	}
+	if n == "sub" {
+		d := Std()
+		d.Name, d.Nested = "sub", true
+		return d
 	}
 	return Std()
 }
